@@ -5,7 +5,7 @@ every command of a seeded {step, rewind} walk the state equals the reference
 state after the *net* number of steps, and continuing to the end gives the
 reference's remaining states and outcome.  A refused rewind changes nothing.
 """
-from . import gen, proto, ref as refmod, script as S, session, workloads
+from . import gen as G, proto, ref as refmod, script as S, session, workloads
 from .core import Eval
 
 PROP = "C04"
@@ -41,7 +41,61 @@ def gen_walk(rng, n):
     return walk
 
 
+# ---- complete history trees over short sessions (DESIGN 4, C04): every word of {step, rewind}^D;
+# the oracle checks after every command, so every prefix of every word is covered
+def _tree_sessions():
+    hx = workloads.hexs
+    P = workloads.pretend_opt()
+    out = [
+        {"script": hx(S.asm([1, "OP_IF", 2, "OP_ENDIF"]))},
+        {"script": hx(S.asm([0, "OP_IF", 1, "OP_ELSE", 2, "OP_ENDIF"]))},
+        {"script": hx(S.asm([1, "OP_IF", 0, "OP_IF", "OP_ENDIF", "OP_ENDIF"]))},
+        {"script": hx(S.asm([0, "OP_NOTIF", 5, "OP_ENDIF", "OP_DEPTH"]))},
+        {"script": hx(S.asm([3, "OP_TOALTSTACK", 4, "OP_FROMALTSTACK", "OP_ADD"]))},
+        {"script": hx(S.asm(["OP_CODESEPARATOR", 1, "OP_CODESEPARATOR", 2])), "opts": ["--modify-flags=-CONST_SCRIPTCODE"]},
+        {"script": hx(S.asm([G.PRETEND_SIG, G.PRETEND_KEY, "OP_CHECKSIG", "OP_VERIFY", 1])), "opts": [P]},
+        {"script": hx(S.asm([1, 2, "OP_ADD", 3, "OP_EQUAL"])), "stack": ["05"]},
+        {"script": hx(S.asm([2, "OP_2MUL", 4, "OP_EQUALVERIFY", 1])), "opts": ["-z"]},
+        {"script": "", "stack": ["01"]},
+        {"script": hx(S.asm([1, "OP_IF"]))},                       # ends with an open conditional
+        {"script": hx(S.asm([1, "OP_VERIFY", 0, "OP_VERIFY", 1]))},    # fails at the 4th operation
+        {"script": None, "spend": {"dataset": "p2pkh"}},
+        {"script": None, "spend": {"dataset": "p2sh-p2wpkh"}},
+        {"script": None, "spend": {"dataset": "p2ts"}},
+        {"script": None, "spend": {"dataset": "p2sh-multisig-2-of-2"}},
+    ]
+    for o in out:
+        o.setdefault("opts", [])
+        o.setdefault("stack", [])
+        o.setdefault("spend", None)
+        o.update({"observe": True, "tty": [1, 1], "env": {}, "family": "tree"})
+    return out
+
+
+TREE_DEPTH = {"quick": 5, "thorough": 10}
+
+
+def tree_size(tier):
+    return len(_tree_sessions()) * (1 << TREE_DEPTH[tier])
+
+
+def tree_scenario(tier, idx):
+    d = TREE_DEPTH[tier]
+    sessions = _tree_sessions()
+    base = dict(sessions[idx >> d])
+    word = idx & ((1 << d) - 1)
+    base["walk"] = [["rewind"] if (word >> b) & 1 else ["step"] for b in range(d)]
+    # short sessions: let the walk start from every depth by a prefix of plain steps
+    base["prefix_steps"] = 0
+    base["regime"] = "clean"
+    base["faults"] = []
+    base["tree"] = [idx >> d, word]
+    return base
+
+
 def gen(rng, tier, idx):
+    if idx < tree_size(tier):
+        return tree_scenario(tier, idx)
     scn = workloads.session_scenario(rng, purpose="rewind")
     n = rng.weighted([(3, rng.range(1, 8)), (5, rng.range(8, 30)), (2, rng.range(30, 60))])
     scn["walk"] = gen_walk(rng, n)
@@ -280,6 +334,12 @@ def fault_regime(ctx, scn, items, run, ev):
 
 def shrink_extra(scn, still, budget):
     return workloads.shrink_script(scn, still, budget)
+
+
+def extra_evidence(counters):
+    return {"exhaustive_subspace": True,
+            "history_trees": "cases 0..N-1 of every run enumerate every word of {step, rewind}^D over %d short sessions (D = %d quick, %d thorough); every prefix of every word is checked"
+                             % (len(_tree_sessions()), TREE_DEPTH["quick"], TREE_DEPTH["thorough"])}
 
 
 def c15_watch(ev, run, scn):
